@@ -130,6 +130,15 @@ class C11(vlib.Check):
             for f in (b'{}', b'{3}', b'{4}', b'{5}', b'{6}', b'{>6}', b'{<6}', b'{_*8}', b'{.2}', b'{.0}', b'{6.3}', b'{>06.3}', b'{x}', b'{c}', b'{+}'):
                 yield fmt_case('string', 'default', f, ['b:%d' % b])
         yield fmt_case('string', 'default', b'{}{5}|', ['sn', 'sn'])
+        # ---- a user-defined argument type whose formatter calls ST::format itself (nested call) and then renders the
+        #      text under the field's flags: after literal text and other fields, with width / alignment / pad / precision
+        for t in (b'(1,2)', b'', b'(-3,40)', b'x' * 20, 'p\u00e9'.encode()):
+            for f in (b'{}', b'p={} end', b'{>9}', b'{<9}|', b'{_*>12}', b'{.3}', b'{04}|{_*>9}|{}', b'{}{}', b'{&2}{&1}', b'[{>30}]'):
+                nargs = f.count(b'{')
+                args = ['n:' + hx(t)] if nargs == 1 else (['i32:7', 'n:' + hx(t), 'b:1'][:max(nargs, 2)] if b'&' not in f else ['n:' + hx(t), 'n:' + hx(t[::-1])])
+                if f == b'{}{}':
+                    args = ['n:' + hx(t), 'n:' + hx(t)]
+                yield fmt_case('string', 'default', f, args)
         # ---- widths and texts that cross the 256-byte in-object capacity of the output stream and its doublings:
         #      padding and content land on both sides of every boundary, after a literal prefix of varying length
         for w in (250, 255, 256, 257, 300, 511, 512, 513, 1000, 1025):
